@@ -16,10 +16,15 @@ pub struct C02;
 const VOUCHED_NAME: &str = "VouchedByService";
 
 fn generate(rng: &mut Rng, index: u64) -> ConnScenario {
-    let secret_cfg: Option<Vec<u8>> = match rng.below(8) {
+    let secret_cfg: Option<Vec<u8>> = match rng.below(9) {
         0 => None,
         1 => Some(vec![]),
         2 => Some(rng.bytes(3)),
+        // longer than one HMAC block
+        3 => {
+            let n = *rng.pick(&[64usize, 65, 100, 200]);
+            Some(rng.bytes(n))
+        }
         _ => Some(rng.bytes(32)),
     };
     let signing_secret = secret_cfg.clone().unwrap_or_else(|| b"unconfigured".to_vec());
@@ -46,7 +51,7 @@ fn generate(rng: &mut Rng, index: u64) -> ConnScenario {
         5 => now + 1000,
         _ => now.saturating_sub(rng.below(expiry.clamp(1, 100_000))),
     };
-    let id = Identity { name: format!("InCookie{}", rng.below(50)), uuid: gen_uuid(rng), props: gen_props(rng) };
+    let id = Identity { name: if rng.chance(1, 5) { gen_name(rng) } else { format!("InCookie{}", rng.below(50)) }, uuid: gen_uuid(rng), props: gen_props(rng) };
     let cookie_addr = match rng.below(9) {
         0 => gen_addr(rng),
         // a different address that merely embeds / is embedded in the client's (IPv4-compatible IPv6)
@@ -95,7 +100,22 @@ fn generate(rng: &mut Rng, index: u64) -> ConnScenario {
         match v - 1 - ntrunc - nflip {
             0 => None,
             1 => Some(vec![]),
-            2..=5 => Some(signed_cookie(&rng.bytes(32), &body)),
+            2..=4 => Some(signed_cookie(&rng.bytes(32), &body)),
+            5 => {
+                // another secret that shares a long prefix with the configured one (last byte changed, one byte more, one byte less)
+                let mut other = signing_secret.clone();
+                match rng.below(3) {
+                    0 if !other.is_empty() => {
+                        let l = other.len() - 1;
+                        other[l] ^= 0x01;
+                    }
+                    1 if other.len() > 1 => {
+                        other.pop();
+                    }
+                    _ => other.push(0x41),
+                }
+                Some(signed_cookie(&other, &body))
+            }
             6 => Some(signed_cookie(&signing_secret, b"not json at all")),
             7 => Some(signed_cookie(&signing_secret, b"")),
             8 => Some(signed_cookie(&signing_secret, b"{\"timestamp\":\"now\"}")),
